@@ -17,6 +17,7 @@ from vf import geom
 MAGNETS = ["Cuboid", "Cylinder", "CylinderSegment", "Sphere", "Tetrahedron", "TriangularMesh"]
 CURRENTS = ["Circle", "Polyline"]
 FIELD_CLASSES = MAGNETS + ["Triangle"] + CURRENTS + ["Dipole"]
+ALL_SOURCES = FIELD_CLASSES + ["CustomSource"]
 
 unit_f = st.floats(0.0, 1.0, exclude_max=True, allow_nan=False, allow_infinity=False)
 
@@ -360,6 +361,10 @@ def source_spec(draw, classes=None, max_path=1, L=None, pos_extent=3.0, with_pos
         spec["diameter"] = L
     elif cls == "Polyline":
         spec["vertices"] = draw(polyline_vertices(L=L))
+    if cls == "CustomSource":
+        # field function family: B(obs) = A @ obs + b (local frame), H = B/mu0, J = M = 0
+        spec["func"] = {"A": [[r6(draw(ufloat(-1, 1))) for _ in range(3)] for _ in range(3)],
+                        "b": [r6(draw(ufloat(-1, 1))) for _ in range(3)]}
     if cls in MAGNETS or cls == "Triangle":
         spec["polarization"] = draw(excitation_vec())
     elif cls in CURRENTS:
@@ -379,6 +384,10 @@ def source_spec(draw, classes=None, max_path=1, L=None, pos_extent=3.0, with_pos
 def region_observers(draw, spec, n_min=1, n_max=6, regions=None, clear=1e-3, extra_regions=()):
     """List of {'region', 'local': [x,y,z]} built on the body of `spec`."""
     body = geom.body_from_spec(spec)
+    if regions == "well_conditioned":
+        # interface / algebra properties (C05, C07, ...) are not about formula accuracy: stay off the
+        # lines and planes where the closed forms are documented to be noisy
+        regions = [r for r in geom.regions_for(body) if r not in ("edge_extension", "near_axis", "axis_exact", "segment_plane")]
     avail = regions or (geom.regions_for(body) + list(extra_regions))
     n = draw(st.integers(n_min, n_max))
     out = []
@@ -448,6 +457,8 @@ def variant_of(draw, spec, max_path=4, pos_extent=1.0):
         out["dimension"] = d
     elif "diameter" in out:
         out["diameter"] = r6(out["diameter"] * f)
+    elif "func" in out:
+        out["func"] = {"A": out["func"]["A"], "b": [r6(x * f + 0.1) for x in out["func"]["b"]]}
     if draw(st.booleans()):
         if "polarization" in out:
             out["polarization"] = draw(excitation_vec())
